@@ -263,7 +263,7 @@ def main(run):
         if r:
             run.violation("session with codec %s: %s" % (m.arg(), r), {"codec": m.arg()})
             break
-    if not run.violations and run.build_model():
+    if not run.concrete() and run.build_model():
         for what, c, mm in run.differential(MODEL_CASES):
             run.violation(what, {"call": c["cmd"][:3000], "implementation": c["impl"][:2000], "model": mm[:2000]})
     return run.finish(rule=RULE, assumptions=[
